@@ -3,11 +3,13 @@
 package checks
 
 import (
+	"bytes"
 	"fmt"
 	"math/big"
 	"sync"
 
 	"github.com/onflow/crypto"
+	"github.com/onflow/crypto/hash"
 
 	"verif/harness/mon"
 	"verif/harness/ref"
@@ -36,6 +38,7 @@ func C17(run *mon.Run) {
 		go func(pi int) {
 			defer wg.Done()
 			defer func() { <-sem }()
+			defer run.Protect("c17 worker")
 			r := run.Rand(fmt.Sprintf("pair-%d", pi))
 			k1 := randScalar(r)
 			var k2 *big.Int
@@ -209,6 +212,87 @@ func C17(run *mon.Run) {
 			}
 		}
 		run.Shape("non-bls|" + alg.String())
+	}
+	// the full cross product key type x proof length x hasher: the refusal (and its class) does not
+	// depend on the other arguments being well formed, and with a BLS key SPOCKVerifyAgainstData and
+	// SPOCKProve return exactly what Verify and Sign return (same boolean, same error class)
+	{
+		bsk := skFromInt(randScalar(r))
+		e1, _ := crypto.GeneratePrivateKey(crypto.ECDSAP256, mon.RandBytes(r, 32))
+		e2, _ := crypto.GeneratePrivateKey(crypto.ECDSASecp256k1, mon.RandBytes(r, 32))
+		data := []byte("cross-product")
+		good, _ := bsk.Sign(data, h)
+		proofs := map[string][]byte{"nil": nil, "empty": {}, "47": good[:47], "48-valid": good, "48-zero": make([]byte, 48), "49": append(append([]byte{}, good...), 0), "64": make([]byte, 64), "96": make([]byte, 96)}
+		hashers := map[string]hash.Hasher{"good": h, "nil": nil, "size-32": hash.NewSHA3_256(), "size-127": constHasher("c127", 1, 127), "size-129": constHasher("c129", 1, 129)}
+		cls := func(e error) string {
+			switch {
+			case e == nil:
+				return "nil"
+			case crypto.IsNotBLSKeyError(e):
+				return "not-bls-key"
+			case crypto.IsNilHasherError(e):
+				return "nil-hasher"
+			case crypto.IsInvalidHasherSizeError(e):
+				return "hasher-size"
+			case crypto.IsInvalidInputsError(e):
+				return "invalid-inputs"
+			}
+			return "other:" + e.Error()
+		}
+		for hn, hh := range hashers {
+			for _, sk := range []crypto.PrivateKey{bsk, e1, e2} {
+				isBLS := sk.Algorithm() == BLS
+				rep := map[string]any{"key": sk.Algorithm().String(), "hasher": hn}
+				var pe, se error
+				var pr, sg crypto.Signature
+				if run.Guard("SPOCKProve", rep, func() { pr, pe = crypto.SPOCKProve(sk, data, hh) }) {
+					continue
+				}
+				run.Eval(1)
+				if !isBLS {
+					if !crypto.IsNotBLSKeyError(pe) {
+						run.Violate("C17:non-bls-key:prove:"+hn, fmt.Sprintf("SPOCKProve with an ECDSA key and hasher %s: error %v", hn, pe), rep)
+					}
+				} else {
+					sg, se = sk.Sign(data, hh)
+					if cls(pe) != cls(se) || !bytes.Equal(pr, sg) {
+						run.Violate("C17:prove-mismatch:"+hn, fmt.Sprintf("SPOCKProve (%x, %v) vs Sign (%x, %v) with hasher %s", pr, pe, sg, se, hn), rep)
+					}
+				}
+				for pn, proof := range proofs {
+					rep := map[string]any{"key": sk.Algorithm().String(), "hasher": hn, "proof": pn}
+					var a bool
+					var ea error
+					if run.Guard("SPOCKVerifyAgainstData", rep, func() { a, ea = crypto.SPOCKVerifyAgainstData(sk.PublicKey(), proof, data, hh) }) {
+						continue
+					}
+					run.Eval(1)
+					if !isBLS {
+						if a || !crypto.IsNotBLSKeyError(ea) {
+							run.Violate("C17:non-bls-key:against-data:"+pn+":"+hn, fmt.Sprintf("SPOCKVerifyAgainstData with an ECDSA key, proof %s, hasher %s: (%v,%v), expected the not-a-BLS-key error", pn, hn, a, ea), rep)
+						}
+					} else {
+						b, eb := sk.PublicKey().Verify(proof, data, hh)
+						if a != b || cls(ea) != cls(eb) {
+							run.Violate("C17:against-data-mismatch:"+pn+":"+hn, fmt.Sprintf("SPOCKVerifyAgainstData (%v,%v) vs Verify (%v,%v) for proof %s, hasher %s", a, ea, b, eb, pn, hn), rep)
+						}
+					}
+					run.Shape(fmt.Sprintf("cross|%s|%s|%s", sk.Algorithm(), pn, hn))
+				}
+			}
+		}
+		// SPOCKVerify: a non-BLS key in either position is refused whatever the proofs look like
+		for pn, proof := range proofs {
+			for _, esk := range []crypto.PrivateKey{e1, e2} {
+				_, ea := crypto.SPOCKVerify(esk.PublicKey(), proof, bsk.PublicKey(), good)
+				_, eb := crypto.SPOCKVerify(bsk.PublicKey(), good, esk.PublicKey(), proof)
+				_, ec := crypto.SPOCKVerify(esk.PublicKey(), proof, esk.PublicKey(), proof)
+				run.Eval(3)
+				if !crypto.IsNotBLSKeyError(ea) || !crypto.IsNotBLSKeyError(eb) || !crypto.IsNotBLSKeyError(ec) {
+					run.Violate("C17:non-bls-key:verify:"+pn, fmt.Sprintf("SPOCKVerify with an ECDSA key and proof %s: errors %v / %v / %v", pn, ea, eb, ec), nil)
+				}
+			}
+		}
 	}
 	run.Require(run.Counter("true.honest") > 0 && run.Counter("true.both-scaled") > 0 && run.Counter("true.both-identity") > 0, "accepting classes not observed")
 }
